@@ -29,12 +29,21 @@ class Clock:
         self.now = T0
         self.calls = 0
         self.step = 0.0
+        self.n = 0  # readings since the harness last reset it
+        self.jump_every = 0  # after every jump_every-th reading ...
+        self.jump = 0.0  # ... this much extra time passes (idle gap between two requests if jump_every is even)
 
     def __call__(self) -> float:
         self.calls += 1
+        self.n += 1
         t = self.now
         self.now += self.step
+        if self.jump_every and self.n % self.jump_every == 0:
+            self.now += self.jump
         return t
+
+    def schedule(self, step: float = 0.0, jump_every: int = 0, jump: float = 0.0) -> None:
+        self.step, self.jump_every, self.jump, self.n = step, jump_every, jump, 0
 
 
 CLOCK = Clock()
